@@ -85,7 +85,7 @@ func hxCheckSigned(out []byte, idx int, tag string) {
 
 func HarnessC08Sign() {
 	hxSigned = nil
-	p := 1 + svPick("parts", svParam("parts", 2))
+	p := svPick("parts", svParam("parts", 2)+1)
 	e := svPick("embeds", svParam("embeds", 1)+1)
 	a := svPick("atts", svParam("atts", 1)+1)
 	menc := hxEnc(svPick("menc", 3))
@@ -125,11 +125,14 @@ func HarnessC08Sign() {
 	if menc == EncodingQP {
 		hxAssumeText(content)
 	}
-	desc := svPick("desc", 2) == 1
+	desc := svPick("desc", 3) // 0 none, 1 ASCII, 2 needs RFC 2047 encoding
 	for i := 0; i < p; i++ {
 		var opts []PartOption
-		if desc && i == 0 {
+		if desc == 1 && i == 0 {
 			opts = append(opts, WithPartContentDescription("described part"))
+		}
+		if desc == 2 && i == 0 {
+			opts = append(opts, WithPartContentDescription("Übersicht für März"))
 		}
 		if i == 0 {
 			m.SetBodyString(TypeTextPlain, string(content), opts...)
@@ -143,10 +146,16 @@ func HarnessC08Sign() {
 	for i := 0; i < a; i++ {
 		_ = m.AttachReader("att.txt", &hxRd{data: []byte(hxFileData[1])})
 	}
+	if p+e+a == 0 {
+		return
+	}
 	if !hxSetupSigning(m) {
 		return
 	}
 	tag := "[" + vname + "] "
+	if p == 0 {
+		tag = "[" + vname + ", no body part] "
+	}
 	w1 := &hxRecW{}
 	if _, err := m.WriteTo(w1); err != nil {
 		svAssert(false, tag+"render-error")
